@@ -483,6 +483,9 @@ class Evaluator:
             return VStr(a.s + b.s)
         if isinstance(op, ast.Add) and isinstance(a, (VElem, VStr)) and isinstance(b, (VElem, VStr)):
             return VElem(STRCAT(flatten('elem', a)[0], flatten('elem', b)[0]))
+        if isinstance(op, ast.Div) and isinstance(a, VElem) and isinstance(b, (VElem, VStr)):
+            PJ = z3.Function('pathjoin', Elem, Elem, Elem)
+            return VElem(PJ(a.t, flatten('elem', b)[0]), kind='Path')
         if not (is_num(a) and is_num(b)):
             h = self.binop_hook(op, a, b, st, node)
             if h is not None:
@@ -660,6 +663,8 @@ class Evaluator:
         if isinstance(base, VRange) and not isinstance(sl, VSlice):
             i = as_int(sl)
             return VInt(base.start + i * base.step)
+        if isinstance(base, VRag):
+            return self.rag_row(base, as_int(sl), st)
         if isinstance(base, VObj):
             m = self.resolve_method(base, '__getitem__', st)
             if m is not None:
@@ -720,6 +725,9 @@ class Evaluator:
             m = self.resolve_elem_attr(base, attr, st)
             if m is not None:
                 return m
+            if attr in ('name', 'stem', 'parent', 'suffix'):
+                f_ = z3.Function('path_' + attr, Elem, Elem)
+                return VElem(f_(base.t))
         if isinstance(base, VList) and base.nd and attr == 'shape' and base.width is not None:
             return VTuple([VInt(st.heap.lists[base.ref].length), VInt(base.width)])
         if isinstance(base, VList) and base.nd and attr in ('max', 'min', 'copy', 'astype', 'any', 'all', 'tolist', 'ravel', 'flatten', 'squeeze'):
@@ -732,6 +740,8 @@ class Evaluator:
             return VInt(1 if base.width is None else 2)
         if isinstance(base, VList) and base.nd and attr == 'dtype':
             return VElem(z3.Const('some_dtype', Elem))
+        if isinstance(base, VRag) and attr == 'append':
+            return VFunc('ragmethod', attr, self_val=base)
         if isinstance(base, VBlocks) and attr == 'append':
             return VFunc('blocksmethod', attr, self_val=base)
         if isinstance(base, VList) and attr in ('append', 'extend'):
